@@ -363,6 +363,9 @@ def run(ctx):
                         segs1.append((pos, pos + ln)); pos += ln + rng.choice([1, 1, 2, 5, 200]) * 1024
                     if j == 0:
                         segs1 = [(0, 1024), (2048, 3072), (7168, 8192), (206848, 207872)]; pos = 300000
+                    if j in (1, 2, 3):      # more than one page of the extent map (> 32 extents) of 1 KiB runs at 1 KiB granularity, not aligned to 4 KiB
+                        start, stride = [(3072, 2048), (1024, 3072), (2048, 5120)][j - 1]
+                        segs1 = [(start + stride * q, start + stride * q + 1024) for q in range(40 + 30 * (j - 1))]; pos = segs1[-1][1] + 4096
                     fsutil.make_file(p1, pos + 100, segs1, seed=500 + j)
                     for what in ('file-segments', 'file-extents'):
                         a = core.ask(probe, [f'{what} {p1}'])[0]
